@@ -1,36 +1,246 @@
 /-
-  C15 — property theorems (helper lemmas live in Lemmas*.lean).
+  C15 — property theorems (helper lemmas live in Lemmas.lean).  Every theorem is unbounded: no bound
+  on the number or size of buffers, on trie shape, on store size (except where a guard is stated).
 -/
-import NdnVerif.C15.Spec
+import NdnVerif.C15.Lemmas
+import NdnVerif.C15.LemmasFetch
 namespace Ndn.C15
+
+/-! ### Produce: segmentation -/
 
 /-- the inner loop of Produce neither loses, duplicates nor reorders bytes: the segment it cuts
     followed by what remains is the input, for every buffer list and every room -/
 theorem fillSeg_concat (bufs : List Bytes) (room : Nat) :
-    (fillSeg bufs room).1 ++ (fillSeg bufs room).2.flatten = bufs.flatten := by
-  induction bufs generalizing room with
-  | nil => simp [fillSeg]
-  | cons b rest ih =>
-    unfold fillSeg
-    split
-    · simp
-    · split
-      · simp [List.append_assoc, ih]
-      · simp [← List.append_assoc, List.take_append_drop]
+    (fillSeg bufs room).1 ++ (fillSeg bufs room).2.flatten = bufs.flatten :=
+  fillSeg_concat' bufs room
 
-/-- a segment never exceeds the room it was given (8000 bytes in Produce) -/
-theorem fillSeg_length_le (bufs : List Bytes) (room : Nat) :
-    (fillSeg bufs room).1.length ≤ room := by
-  induction bufs generalizing room with
-  | nil => simp [fillSeg]
-  | cons b rest ih =>
-    unfold fillSeg
-    split
-    · simp
-    · split
-      · rename_i h; have := ih (room - b.length); simp; omega
-      · simp [List.length_take]; omega
+/-- the concatenation of the produced segments is the concatenation of the input buffers — for EVERY
+    list of input buffers (any split, empty buffers included) -/
+theorem segments_concat (bufs : List Bytes) : (segments bufs).flatten = bufs.flatten :=
+  segments_flatten bufs
 
-example : (fillSeg [[1, 2, 3], [4, 5]] 4).1 = [1, 2, 3, 4] := by decide
+example : segments [[1, 2], [], [3]] = [[1, 2, 3]] := by
+  simp [segments, fillSeg, segSize]
+
+/-- segment shape: every segment has at most 8000 bytes (every buffer list); if the last input buffer
+    is not empty: no segment is empty, all but the last have exactly 8000 bytes and there are
+    (size-1)/8000+1 of them — the FinalBlockId Produce announces is the last segment's number.
+    (Full statement without the guard is false for the code: a trailing empty buffer after an exact
+    multiple of 8000 bytes yields one extra empty segment beyond FinalBlockId — design/C15.md §6.) -/
+theorem segment_count (bufs : List Bytes) :
+    (∀ s ∈ segments bufs, s.length ≤ segSize) ∧
+    (LastNonempty bufs → bufs ≠ [] →
+      (∀ s ∈ segments bufs, s ≠ []) ∧
+      (∀ s ∈ (segments bufs).dropLast, s.length = segSize) ∧
+      (segments bufs).length = (totalLen bufs - 1) / segSize + 1) := by
+  refine ⟨segments_le bufs, fun h hne => ?_⟩
+  have := segments_count bufs h hne
+  exact ⟨segments_nonempty bufs h, this.2, this.1⟩
+
+example : LastNonempty [[1, 2], [], [3]] ∧ [[1, 2], [], [3]] ≠ ([] : List Bytes) := by
+  constructor
+  · intro b hb; simp at hb; subst hb; simp
+  · simp
+
+/-- the guard of `segment_count` is needed (shown with room 2 instead of 8000): after a segment that is
+    exactly full a trailing empty buffer remains, and the next outer iteration cuts an empty segment -/
+example : fillSeg [[1, 2], []] 2 = ([1, 2], [[]]) ∧ fillSeg [[]] 2 = ([], []) := by
+  simp [fillSeg]
+
+/-! ### stores: newest version, removal -/
+
+/-- bolt, prefix query, at most 999 keys under the prefix (guard = the code's scan limit, F-15d): the
+    answer is a scanned entry of maximal version; nothing scanned ⇒ no answer.
+    The full statement (no guard) is false for the code: with more than 999 keys under the prefix the
+    packets beyond the 999th are never looked at (replay corpus/C15/bolt-scan-limit.ops). -/
+theorem newest_version_selected_bolt_partial (s : Bolt) (name : Name)
+    (hguard : (boltScan s (encKey name)).length ≤ boltScanLimit) :
+    ((boltScan s (encKey name)) = [] → boltGet s name true = none) ∧
+    ((boltScan s (encKey name)) ≠ [] →
+      ∃ e ∈ boltScan s (encKey name), boltGet s name true = some e.pkt ∧
+        ∀ e' ∈ boltScan s (encKey name), e'.ver ≤ e.ver) := by
+  have htake : (boltScan s (encKey name)).take boltScanLimit = boltScan s (encKey name) :=
+    List.take_of_length_le hguard
+  have hs := boltNewest_spec (boltScan s (encKey name)) none
+  constructor
+  · intro he
+    simp [boltGet, he, boltNewest]
+  · intro hne
+    simp only [boltGet, if_true, htake]
+    split at hs
+    · exact absurd hs.1 hne
+    · rename_i r hr
+      obtain ⟨h1, h2, _⟩ := hs
+      rcases h1 with h1 | h1
+      · exact ⟨r, h1, by simp [hr], h2⟩
+      · cases h1
+
+def exPkt (n : Nat) : Pkt := { name := [⟨8, [n]⟩], fb := none, content := [n] }
+def exBolt : Bolt := boltPut (boltPut [] ⟨[⟨8, [1]⟩, ⟨8, [1]⟩], 5, exPkt 1⟩) ⟨[⟨8, [1]⟩, ⟨8, [2]⟩], 3, exPkt 2⟩
+
+/-- non-vacuity: byte order ≠ version order; the newer packet (first key) is chosen -/
+example : boltGet exBolt [⟨8, [1]⟩] true = some (exPkt 1) := by decide
+
+/-- removal from the bolt store: nothing at or below a removed prefix is served (exact or prefix
+    query), a removed exact name is not served -/
+theorem removed_not_served_bolt (s : Bolt) (name : Name) :
+    (∀ q : Name, (encKey name).isPrefixOf (encKey q) → ∀ pfx, boltGet (boltRemove s name true) q pfx = none) ∧
+    boltGet (boltRemove s name false) name false = none := by
+  constructor
+  · intro q hq pfx
+    have hnone : ∀ e ∈ boltRemove s name true, ¬ (encKey q).isPrefixOf e.key = true := by
+      intro e he hp
+      simp only [boltRemove, if_true, List.mem_filter] at he
+      have h1 : (encKey name).isPrefixOf e.key = true := by
+        rw [List.isPrefixOf_iff_prefix] at hq hp ⊢
+        exact List.IsPrefix.trans hq hp
+      simp [h1] at he
+    cases pfx with
+    | true =>
+      have hscan : boltScan (boltRemove s name true) (encKey q) = [] := by
+        apply List.eq_nil_iff_forall_not_mem.mpr
+        intro e he
+        unfold boltScan at he
+        have hp := mem_takeWhile_pred _ _ _ he
+        have hm := (List.dropWhile_sublist _).subset ((List.takeWhile_sublist _).subset he)
+        exact hnone e hm hp
+      simp [boltGet, hscan, boltNewest]
+    | false =>
+      simp only [boltGet, Bool.false_eq_true, if_false, Option.map_eq_none_iff, List.find?_eq_none]
+      intro e he hk
+      simp only [decide_eq_true_eq] at hk
+      apply hnone e he
+      rw [hk, List.isPrefixOf_iff_prefix]
+      exact List.prefix_refl _
+  · simp only [boltGet, Bool.false_eq_true, if_false, Option.map_eq_none_iff, List.find?_eq_none, boltRemove]
+    intro e he
+    simp only [List.mem_filter] at he
+    simpa using he.2
+
+example : boltGet exBolt [⟨8, [1]⟩, ⟨8, [2]⟩] false = some (exPkt 2) ∧
+    boltGet (boltRemove exBolt [⟨8, [1]⟩] true) [⟨8, [1]⟩, ⟨8, [2]⟩] false = none := by decide
+
+/-- memory store, prefix query: the exact node's packet if it has one; otherwise a packet of maximal
+    version among all packets stored below the node, version 0 included — for every order of the
+    children lists (Go map iteration order) -/
+theorem newest_version_selected_mem (root node : MNode) (name : Name) (h : root.find name = some node) :
+    (∀ p, node.wire = some p → memGet root name true = some p) ∧
+    (node.wire = none →
+      (∀ p, memGet root name true = some p → ∃ v, (v, p) ∈ node.entries ∧ ∀ e ∈ node.entries, e.1 ≤ v) ∧
+      (node.entries ≠ [] → (memGet root name true).isSome = true) ∧
+      (node.entries = [] → memGet root name true = none)) := by
+  have hb := findNewest_best node
+  constructor
+  · intro p hp
+    simp [memGet, h, hp]
+  · intro hw
+    have hg : memGet root name true = node.findNewest.wire := by simp [memGet, h, hw]
+    rw [hg]
+    refine ⟨?_, ?_, ?_⟩
+    · intro p hp
+      exact ⟨node.findNewest.ver, hb.1 p hp, fun e he => (hb.2 e he).2⟩
+    · intro hne
+      obtain ⟨e, he⟩ := List.exists_mem_of_ne_nil _ hne
+      exact (hb.2 e he).1
+    · intro he
+      cases hfw : node.findNewest.wire with
+      | none => rfl
+      | some p => have := hb.1 p hfw; simp [he] at this
+
+def exMem : MNode :=
+  memPut (memPut (memPut MNode.empty ⟨[⟨8, [1]⟩, ⟨8, [1]⟩], 0, exPkt 1⟩) ⟨[⟨8, [1]⟩, ⟨8, [2]⟩], 3, exPkt 2⟩)
+    ⟨[⟨8, [1]⟩, ⟨8, [3]⟩], 2, exPkt 3⟩
+
+/-- non-vacuity: three versions inserted out of order, the query node has no packet of its own -/
+example : memGet exMem [⟨8, [1]⟩] true = some (exPkt 2) := by
+  simp [exMem, memPut, memGet, MNode.insert, MNode.empty, MKids.lookup, MKids.push, MKids.set, MNode.find, MNode.kids,
+    MNode.wire, MNode.findNewest, MKids.newest, MNode.ver, exPkt]
+
+/-- version 0 alone is found (F-15b) -/
+example : memGet (memPut MNode.empty ⟨[⟨8, [1]⟩, ⟨8, [1]⟩], 0, exPkt 1⟩) [⟨8, [1]⟩] true = some (exPkt 1) := by
+  simp [memPut, memGet, MNode.insert, MNode.empty, MKids.lookup, MKids.push, MNode.find, MNode.kids,
+    MNode.wire, MNode.findNewest, MKids.newest, MNode.ver, exPkt]
+
+/-- memory store: after `Remove(name, prefix)` no query at or below `name` is answered; after
+    `Remove(name, exact)` the exact query for `name` is not answered -/
+theorem removed_not_served_mem (root : MNode) (name : Name) :
+    (∀ rest pfx, memGet (memRemove root name true) (name ++ rest) pfx = none) ∧
+    memGet (memRemove root name false) name false = none := by
+  constructor
+  · intro rest pfx
+    exact memGet_of_gone _ _ _ (find_remove_prefix root name rest)
+  · unfold memGet memRemove
+    cases hf : (root.remove name false).1.find name with
+    | none => rfl
+    | some n => simp [find_remove_exact root name n hf]
+
+/-! ### consumer: any delivery order, retransmissions -/
+
+/-- Any-order fetch.  For every object (`segs`: the segments Produce stored, none empty, at most
+    `maxObjectSeg`) and EVERY order in which the segment Data reach `handleData` (each segment exactly
+    once — `order` is any permutation of the segment numbers):
+    the chunks `Content()` hands to the callback concatenate to the object's content (nothing
+    corrupted, duplicated or reordered), the state ends complete without error, exactly one callback
+    invocation reports completion and it is the last one. -/
+theorem fetch_any_order (base : Name) (segs : List Bytes) (order : List Nat)
+    (hne : segs ≠ []) (hseg : ∀ s ∈ segs, s ≠ []) (hmax : segs.length ≤ maxObjectSeg)
+    (hperm : order.Perm (List.range segs.length)) :
+    let r := runFetch {} (order.map fun i => Arrival.data (segPkt base segs i))
+    (r.2.map (·.chunk)).flatten = segs.flatten ∧ r.1.complete = true ∧ r.1.err = false ∧
+    (r.2.filter (·.complete)).length = 1 ∧ (∃ c, r.2.getLast? = some c ∧ c.complete = true) ∧
+    ∀ c ∈ r.2, c.err = false := by
+  intro r
+  have h1 : 1 ≤ segs.length := List.length_pos_iff.mpr hne
+  have hn : segs.length < 2 ^ 64 := by simp only [maxObjectSeg] at hmax; omega
+  have hsegD : ∀ i, i < segs.length → segs.getD i [] ≠ [] := by
+    intro i hi
+    rw [List.getD_eq_getElem?_getD, List.getElem?_eq_getElem hi]
+    exact hseg _ (List.getElem_mem hi)
+  have hnd : order.Nodup := hperm.nodup_iff.mpr List.nodup_range
+  have hmem : ∀ i, i ∈ order ↔ i < segs.length := by
+    intro i; rw [hperm.mem_iff]; simp
+  -- the first Data initialises the state; from then on the invariant of `finv_step` is carried along
+  have hrun : FInv segs (order.reverse ++ []) r.1 ([] ++ r.2) := by
+    have hstart : r = runFetch (fetchInit segs.length) (order.map fun i => Arrival.data (segPkt base segs i)) := by
+      cases horder : order with
+      | nil =>
+        have := (hmem 0).mpr (by omega)
+        simp [horder] at this
+      | cons k rest =>
+        simp only [r, horder, List.map_cons, runFetch]
+        rw [handleData_first base segs k h1 hmax]
+    rw [hstart]
+    exact finv_run base segs hn hsegD order [] _ [] (finv_init segs h1) hnd
+      (fun i hi => ⟨by simp, (hmem i).mp hi⟩)
+  simp only [List.append_nil, List.nil_append] at hrun
+  have hw : r.1.wnd1 = segs.length := by
+    apply Nat.le_antisymm hrun.le
+    apply Nat.le_of_not_lt
+    intro hlt
+    exact hrun.notin hlt (by simp [(hmem _).mpr hlt])
+  refine ⟨?_, ?_, hrun.noerr, ?_, hrun.lastc hw, hrun.cberr⟩
+  · rw [hrun.chunks, hw, List.take_length]
+  · rw [hrun.complete]; simp [hw]
+  · rw [hrun.ncomplete]; simp [hw]
+
+/-- non-vacuity: three segments arriving in the order 2, 0, 1 -/
+example : List.Perm [2, 0, 1] (List.range [[1], [2], [3]].length) := by decide
+
+example :
+    (runFetch {} ([2, 0, 1].map fun i => Arrival.data (segPkt [⟨8, [1]⟩] [[1], [2], [3]] i))).2
+      = [⟨[1], false, false⟩, ⟨[2, 3], true, false⟩] := by decide
+
+/-- Retransmission: a timeout of a segment Interest that still has retries left never reaches the
+    fetch state — ExpressR re-expresses the Interest, no callback is made, the window is untouched.
+    Together with `fetch_any_order` (which is about the Data that do arrive, in whatever order the
+    retransmissions cause) this covers every loss pattern within the retry budget. -/
+theorem timeout_within_budget_absorbed (serve : Name → Bool → Option Pkt) (c : Client) (o k k' left : Nat)
+    (ho : o < c.cons.length)
+    (hp : (c.getCons o).pending.find? (·.1 = k) = some (k', left)) (hl : left > 0) :
+    ((c.step serve (.timeout o (some k))).1.getCons o).f = (c.getCons o).f ∧
+    (c.step serve (.timeout o (some k))).2.cbs = [] ∧
+    (c.step serve (.timeout o (some k))).2.sent = [(o, some k)] := by
+  simp only [Client.step, hp, hl, if_true]
+  simp [Client.getCons, Client.setCons, List.getD_eq_getElem?_getD, List.getElem?_set, ho]
 
 end Ndn.C15
